@@ -80,6 +80,43 @@ def main(argv):
         shutil.rmtree(d, ignore_errors=True)
     meta["confirmed"] = (ran["demo_without_change_exit"] == 0 and ran["demo_with_change_exit"] != 0
                          and meta.get("tests_pass_with_change", True))
+    # ---- 3'. optional: checks against a scratch copy (VERIF_REPO), when /repo must stay untouched ----
+    if "--scratch" in argv:
+        res = meta.setdefault("checks", {})
+        d = tempfile.mkdtemp(prefix="vf-seed-", dir=base)
+        try:
+            sh(["rsync", "-a", "--exclude", ".git", "--exclude", "__pycache__", "--exclude", "jupyter-notebooks", "--exclude", "docs",
+                REPO + "/", d + "/"])
+            ap = sh(["patch", "-p1", "-d", d, "--no-backup-if-mismatch", "-i", patch])
+            for p in props:
+                env = dict(os.environ, VERIF_BUDGET_S=str(budget), VERIF_SKIP_FRESH="1", VERIF_NDET="0", VERIF_REPO=d)
+                env.pop("PYTHONHASHSEED", None)
+                env.pop("_VERIF_REEXEC", None)
+                t0 = time.time()
+                c = sh([os.path.join(HERE, "check"), p, "--tier", "quick"], cwd=HERE, env=env, timeout=3600)
+                sigs = [l.split(": ", 1)[-1] for l in c.stdout.splitlines() if l.startswith("violation found")]
+                vio = [l for l in c.stdout.splitlines() if l.startswith("VIOLATION")]
+                rep = None
+                if c.returncode == 1 and vio:
+                    rp = vio[0].split("replay=")[-1].strip()
+                    rr = sh([os.path.join(HERE, "check"), "--replay", rp], cwd=HERE, env=env, timeout=600)
+                    rep = rr.returncode == 1
+                    shutil.copy(rp, os.path.join(dst, "replay-%s.json" % p))
+                    for l in vio:
+                        try:
+                            os.remove(l.split("replay=")[-1].strip())
+                        except OSError:
+                            pass
+                res[p] = {"exit": c.returncode, "detected": c.returncode == 1, "signatures": sigs[:3], "replay_reproduces": rep,
+                          "wall_s": round(time.time() - t0, 1), "budget_s": budget, "mode": "scratch copy via VERIF_REPO",
+                          "summary": [l for l in c.stdout.splitlines() if " tier=" in l][-1:]}
+                print("check %s (scratch): exit %d %s replay_reproduces=%s" % (p, c.returncode, sigs[:2], rep), flush=True)
+        finally:
+            shutil.rmtree(d, ignore_errors=True)
+        meta["caught_by"] = sorted(p for p, r in res.items() if r.get("detected"))
+        json.dump(meta, open(meta_path, "w"), indent=1)
+        print("caught by:", meta["caught_by"])
+        return 0
     # ---- 3. checks against /repo with the patch applied -------------------------
     st = sh(["git", "-C", REPO, "status", "--porcelain"])
     if st.stdout.strip():
